@@ -1,6 +1,7 @@
 package ext
 
 import (
+	"github.com/alligator/jqawk/cli"
 	lang "github.com/alligator/jqawk/src"
 	"github.com/alligator/jqawk/zzverif/vh"
 )
@@ -64,4 +65,126 @@ func VHC14Selector() {
 	vh.Assert(a.k == b.k, "C14: -r E and BEGINFILE { $ = E } end with the same outcome: E = "+sel)
 	vh.Assert(a.out == b.out, "C14: -r E and BEGINFILE { $ = E } print the same: E = "+sel)
 	vh.Assert(a.jk == b.jk && a.json == b.json, "C14: -r E and BEGINFILE { $ = E } write the same JSON: E = "+sel)
+}
+
+// ---- the wrapper clauses: the real cli.Run on a model of argv / files / descriptors ----
+
+const c14Prog = "BEGIN { print 'B' }\n{ print $file == 'hidden', $.name, $.n }\n$.n > 1 { $.seen = true }\nEND { print 'E' }"
+
+func c14Docs(tag string, s string) []any {
+	return []any{
+		[]any{map[string]any{"name": tag + s, "n": 1.0}, map[string]any{"name": tag + "two", "n": 2.0}},
+		map[string]any{"name": tag + "%d 100% %s\\n", "n": 3.0, "list": []any{}}, // the last value is what -o writes
+	}
+}
+
+func c14Lib(prog string, files []string, sels []string, s string) (string, string, int, int) {
+	var out vh.Out
+	var in []lang.InputFile
+	for _, f := range files {
+		in = append(in, lang.InputFile{Name: f, Reader: &vh.DocStream{Items: c14Docs(f[:1], s)}})
+	}
+	ev, err := lang.EvalProgram(prog, in, sels, &out, false)
+	k := legal(err, "EvalProgram")
+	j, jk := "", 0
+	if err == nil && ev != nil {
+		var jerr error
+		j, jerr = ev.GetRootJson()
+		if jerr != nil {
+			jk = 1
+		}
+	}
+	return out.String(), j, k, jk
+}
+
+// VHC14Wrapper: -f / inline, stdin / one file / two files / a missing file, 0-2 -r
+// selectors, -o absent / - / FILE: standard output, JSON output and outcome equal the
+// library's for the same program, selectors and inputs in the same order; -o FILE
+// receives exactly what -o - prints after the program's output; exit status 0 on
+// success, non-zero with a diagnostic on stderr otherwise.
+func VHC14Wrapper() {
+	s := vh.Bytes("s", 1) // a symbolic byte that travels through program text and data
+	vh.Assume(vh.Not(vh.OneOf(s[0], "'\"\\\n\r")))
+	prog := "BEGIN { print '" + s + "' }\n" + c14Prog
+	src := vh.Choose("progsrc", 2) // 0 inline, 1 -f
+	inp := vh.Choose("inputs", 4)  // 0 stdin, 1 one file, 2 two files, 3 a missing file
+	nsel := vh.Choose("nsel", 3)   // 0-2 selectors
+	outm := vh.Choose("omode", 3)  // 0 none, 1 "-o -", 2 "-o out.json"
+	sels := []string{"$", "[$]"}[:nsel]
+	ds := s // what travels through the data
+	if outm != 0 {
+		ds = "q" // the JSON text level is not modelled symbolically: concrete data when -o is given
+	}
+
+	p := &vh.Proc{Texts: map[string]string{}, Data: map[string]*vh.DocStream{}}
+	var args []string
+	for _, sel := range sels {
+		args = append(args, "-r", sel)
+	}
+	switch outm {
+	case 1:
+		args = append(args, "-o", "-")
+	case 2:
+		args = append(args, "-o", "out.json")
+	}
+	if src == 1 {
+		p.Texts["prog.jqawk"] = prog
+		args = append(args, "-f", "prog.jqawk")
+	} else {
+		args = append(args, prog)
+	}
+	var names []string // as the library sees them
+	switch inp {
+	case 0:
+		p.Stdin = &vh.DocStream{Items: c14Docs("<", ds)}
+		names = []string{"<stdin>"}
+	case 1:
+		p.Data["a.json"] = &vh.DocStream{Items: c14Docs("a", ds)}
+		args = append(args, "a.json")
+		names = []string{"a.json"}
+	case 2:
+		p.Data["a.json"] = &vh.DocStream{Items: c14Docs("a", ds)}
+		p.Data["b.json"] = &vh.DocStream{Items: c14Docs("b", ds)}
+		args = append(args, "b.json", "a.json")
+		names = []string{"b.json", "a.json"}
+	case 3:
+		p.Data["a.json"] = &vh.DocStream{Items: c14Docs("a", ds)}
+		args = append(args, "a.json", "nosuch.json")
+	}
+	p.Args = args
+	res := vh.RunCLI(cli.Run, p)
+	vh.Reach("front end evaluated")
+
+	if inp == 3 {
+		vh.Assert(res.Exit != 0 && res.Stderr != "", "C14: an unreadable input file gives a non-zero status and a diagnostic")
+		vh.Assert(res.Stdout == "", "C14: nothing runs when an input file cannot be opened")
+		return
+	}
+	lout, ljson, lk, ljk := c14Lib(prog, names, sels, ds)
+	if lk != OK {
+		vh.Assert(res.Exit != 0 && res.Stderr != "", "C14: a failing run gives a non-zero status and a diagnostic")
+		vh.Assert(res.Stdout == lout, "C14: output before a failure equals the library's")
+		return
+	}
+	if outm != 0 && len(names) > 1 {
+		vh.Assert(res.Exit != 0 && res.Stderr != "", "C14: -o with several input files is refused with a diagnostic")
+		vh.Assert(res.Stdout == lout, "C14: the program's own output is unaffected by the refusal")
+		return
+	}
+	if outm != 0 && ljk != 0 {
+		vh.Assert(res.Exit != 0 && res.Stderr != "", "C14: a root that cannot be serialised gives a non-zero status")
+		return
+	}
+	vh.Assert(res.Exit == 0, "C14: a successful run exits with status 0")
+	vh.Assert(res.Stderr == "", "C14: a successful run writes nothing to stderr")
+	switch outm {
+	case 0:
+		vh.Assert(res.Stdout == lout, "C14: standard output equals the library's")
+		vh.Assert(len(res.Written) == 0, "C14: without -o no file is written")
+	case 1:
+		vh.Assert(res.Stdout == lout+ljson, "C14: -o - prints the JSON of the root after the program's own output, byte for byte")
+	case 2:
+		vh.Assert(res.Stdout == lout, "C14: with -o FILE standard output is the program's own output")
+		vh.Assert(res.Written["out.json"] == ljson, "C14: -o FILE receives exactly the bytes -o - prints")
+	}
 }
